@@ -159,7 +159,7 @@ theorem evalE_ok_evalW (P : Prog) (env : Env) : ∀ (fuel : Nat) (e : Expr) (v :
 
 
 def ovE : Expr := .bin .div (.paren (.bin .add (.var "a") (.var "a"))) (.lit 2)
-def ovD : FuncDecl := { name := "f", params := ["a"], hasResult := true, body := .seq (.ret (some ovE)) .skip }
+def ovD : FuncDecl := { name := "f", params := ["a"], nres := 1, body := .seq (.ret (some ovE)) .skip }
 def ovEnv : Env := { frames := [[], []], args := [("a", .int (2 ^ 62))] }
 
 theorem overflow_witness :
